@@ -100,3 +100,16 @@ package lua
 //@ assert@`L.SetField(packagemod, "path"` callfn(ncalls() - 1) == sfs() && callargLV(ncalls() - 1, 1) == mkTab(L.G.Registry) && callargStr(ncalls() - 1, 2) == "_LOADED" && callargLV(ncalls() - 1, 3) == mkTab(loaded) && callfn(ncalls() - 2) == sfs() && callargLV(ncalls() - 2, 1) == packagemod && callargStr(ncalls() - 2, 2) == "loaded" && callargLV(ncalls() - 2, 3) == mkTab(loaded)
 //@ modifies everything
 //@ loop 1 invariant Inv_gfn(L) && len(loLoaders) < MaxArrayIndex && loaders != nil && Inv_arr(loaders) && Inv_hash(loaders) && 0 <= i && i <= len(loLoaders) && len(loaders.array) == i && (forall k int :: 0 <= k && k < i ==> isFn(loaders.array[k]) && allocated(fn(loaders.array[k])) && fn(loaders.array[k]).IsG && fn(loaders.array[k]).GFunction == loLoaders[k])
+
+// OpenLibs opens the libraries in the order of luaLibs: the package library comes first, so that every later
+// RegisterModule (incl. "_G" by OpenBase) registers into the _LOADED table that require reads
+//@ initvalue[C20] luaLibs = OpenPackage OpenBase *
+
+// module(name): the module table is the cached _LOADED[name] when that is a table; otherwise the table found/created under
+// the GLOBAL name, which is then stored into _LOADED[name] (so a later require returns the same table). The rest of
+// module() (_NAME/_M/_PACKAGE, setfenv of the caller, option functions) is behind the cut and not verified.
+//@ func loModule [C20]
+//@ requires ReqOK(L) && L.G.Global != nil
+//@ assert@`if L.GetField(tb, "_NAME") == LNil` ncalls() >= old(ncalls()) + 2 && callfn(old(ncalls())) == gfs() && callargLV(old(ncalls()), 1) == old(mkTab(L.G.Registry)) && callargStr(old(ncalls()), 2) == "_LOADED" && callfn(old(ncalls()) + 1) == gfs() && callargLV(old(ncalls()) + 1, 1) == callresLV(old(ncalls()), 0) && callargStr(old(ncalls()) + 1, 2) == name && (isTab(callresLV(old(ncalls()) + 1, 0)) ==> ncalls() == old(ncalls()) + 2 && tb == callresLV(old(ncalls()) + 1, 0)) && (!isTab(callresLV(old(ncalls()) + 1, 0)) ==> ncalls() == old(ncalls()) + 4 && callfn(old(ncalls()) + 2) == ftid() && callargInt(old(ncalls()) + 2, 1) == old(L.G.Global) && callargStr(old(ncalls()) + 2, 2) == name && callfn(old(ncalls()) + 3) == sfs() && callargLV(old(ncalls()) + 3, 1) == callresLV(old(ncalls()), 0) && callargStr(old(ncalls()) + 3, 2) == name && callargLV(old(ncalls()) + 3, 3) == tb && tb == callresLV(old(ncalls()) + 2, 0) && isTab(tb))
+//@ cut@"caller := L.currentFrame.Parent" setfenv of the caller and the option-function loop are not verified
+//@ modifies everything
